@@ -145,6 +145,13 @@ class C24(Spec):
                    'coloring': rng.random() < 0.85}
             cases.append({'spec': spec, 'cfg': cfg, 'history': [],
                           'kind': 'model-approx_totals' + (':coloring' if cfg['coloring'] else '') + ':indexed-desvar'})
+        # arrowhead total jacobians under the default mode with a dynamic total colouring of the driver:
+        # bidirectional colourings solve the dense rows in reverse although the problem's mode is fwd
+        for k in range(16 if tier == 'quick' else 150):
+            cases.append({'spec': sg.gen_arrow_spec(rng), 'history': [],
+                          'cfg': {'lin': rng.choice(['runonce', 'runonce', 'lbgs', 'direct']), 'jac': None, 'nl': 'nlbgs',
+                                  'mf': False, 'coloring': True, 'modes': ['auto']},
+                          'kind': 'arrowhead:auto:driver-coloring'})
         # pre-opt / iterated / post-opt split of a driver run, with discrete links on design-variable -> response paths
         for k in range(40 if tier == 'quick' else 400):
             cases.append({'spec': sg.gen_ppp_spec(rng), 'cfg': {}, 'kind': 'pre-iter-post:discrete-links'})
